@@ -4,6 +4,7 @@ Signatures: "<method>:<relation|differs|raises:<Exc>>[:null-mode][:complex]
 [:after-update]" -- mechanism only (method, broken relation, whether the
 library's stored pseudo-inverse still contains the Laplacian's null mode,
 whether the event was seen after an update history)."""
+import copy
 import numpy as np
 
 from pvm.ref import circuits as ref
@@ -738,10 +739,13 @@ def check_history(ctx, RN, A, cid):
         if store and order.index("diameter_effective_resistance") < \
                 order.index("average_effective_resistance") and changed:
             ctx.count("diameter_after_update_with_prior_store")
+        held = {}
         for m in order:
             ok1, v1 = ctx.call(Q[m], net)
             ok2, v2 = ctx.call(Q[m], fresh)
             ctx.evals()
+            if ok1:
+                held[m] = (v1, copy.deepcopy(v1))
             if m in ("average_effective_resistance",
                      "diameter_effective_resistance"):
                 store = True
@@ -765,6 +769,26 @@ def check_history(ctx, RN, A, cid):
                                "fresh_exc": repr(v2)}, cid)
             else:
                 ctx.count("rejected")
+        # read-only queries asked again, nothing changed in between: the
+        # same answer, and the answers handed out before are still what
+        # they were
+        for m in [str(x) for x in rng.permutation(names)][:6]:
+            if m not in held:
+                continue
+            ok3, v3 = ctx.call(Q[m], net)
+            ctx.evals()
+            ctx.count("history_queries_asked_again")
+            if not ok3:
+                ctx.violation(f"{m}:raises:{type(v3).__name__}:asked-again",
+                              {**detail, "exc": repr(v3)}, cid)
+            elif not same(v3, held[m][1]):
+                ctx.violation(f"{m}:differs:asked-again",
+                              {**detail, "first": held[m][1], "again": v3},
+                              cid)
+            elif not same(held[m][0], held[m][1]):
+                ctx.violation(f"{m}:earlier-answer-modified",
+                              {**detail, "was": held[m][1],
+                               "is": held[m][0]}, cid)
         ctx.count("history_updates_compared")
         if switch:
             ctx.count("history_dtype_switch")
